@@ -471,28 +471,42 @@ func ruleL20(p *Prog, r *Report) {
 			continue
 		}
 		ord := 0
-		eachInstr(f, func(in ssa.Instruction) {
-			c, ok := in.(*ssa.Call)
-			if !ok || ssa.Value(c) == resolver {
+		seenFn := map[*ssa.Function]bool{}
+		var check func(fn *ssa.Function, res ssa.Value, depth int)
+		check = func(fn *ssa.Function, res ssa.Value, depth int) {
+			if seenFn[fn] || depth > 3 {
 				return
 			}
-			g := c.Call.StaticCallee()
-			if g == nil || g.Pkg != p.RootSSA {
-				return
-			}
-			for _, a := range c.Call.Args {
-				if typeName(a.Type()) != "TypeInfoDecoder" {
-					continue
+			seenFn[fn] = true
+			eachInstr(fn, func(in ssa.Instruction) {
+				c, ok := in.(*ssa.Call)
+				if !ok || ssa.Value(c) == res {
+					return
 				}
-				if !resolver.(*ssa.Call).Block().Dominates(c.Block()) {
-					continue
+				g := c.Call.StaticCallee()
+				if g == nil || g.Pkg != p.RootSSA {
+					return
 				}
-				n++
-				ord++
-				cons := fmt.Sprintf("typeinfo-ref-resolved:%s:%s", p.Name(f), g.Name())
-				r.Decide(canon(a) == resolver, R, cons, p.InstrPos(in), "the callee receives the decoder that resolves references into the shared type-info list", "the callee receives the plain type-info decoder: a type information that the encoder wrote as a reference into the slab's shared list cannot be decoded (or decodes to another type) for this kind of extra data")
-			}
-		})
+				for i, a := range c.Call.Args {
+					if typeName(a.Type()) != "TypeInfoDecoder" {
+						continue
+					}
+					if rc, isCall := res.(*ssa.Call); isCall && !rc.Block().Dominates(c.Block()) {
+						continue
+					}
+					n++
+					ord++
+					cons := fmt.Sprintf("typeinfo-ref-resolved:%s:%s", p.Name(f), g.Name())
+					good := canon(a) == res
+					r.Decide(good, R, cons, p.InstrPos(in), "the callee receives the decoder that resolves references into the shared type-info list", "the callee receives the plain type-info decoder: a type information that the encoder wrote as a reference into the slab's shared list cannot be decoded (or decodes to another type) for this kind of extra data")
+					// a private dispatcher that hands the decoder on: the same obligation for what it calls
+					if good && g.Object() != nil && !g.Object().Exported() && len(g.Blocks) > 0 && i < len(g.Params) {
+						check(g, g.Params[i], depth+1)
+					}
+				}
+			})
+		}
+		check(f, resolver, 0)
 	}
 	r.Floor(R, "extra data decoders handed a type-info decoder", 3, n)
 }
